@@ -11,7 +11,9 @@ a real working tree:
  2. single-pattern semantics against the reference matcher of _c48_ref (written from
     `brz help patterns`), on the documented grammar only.
  3. precedence: ExceptionGlobster(list) == (normal and not '!') or '!!', reported
-    pattern must be one that matches; computed from single-pattern answers.
+    pattern must be one that matches; computed from single-pattern answers, and - for
+    lists of documented-grammar patterns - also from the reference matcher (a pattern
+    that silently stops matching also stops excepting / re-ignoring).
  4. end to end: WorkingTree.is_ignored / ignored_files / unknowns on a real tree whose
     patterns come from .bzrignore, the user ignore file and runtime ignores.
 """
@@ -26,7 +28,8 @@ TECHNIQUE = ("law monitor (grouping independence, exception precedence) on the r
              "documentation-derived reference matcher for single patterns + end-to-end is_ignored on a real tree")
 LEVEL_TEXT = ("held on the generated (pattern list, file name) pairs: lists of 1-600 patterns crossing the 99-group "
               "batching in each bucket, names of depth <= 3 over an alphabet with regex-special characters")
-RULE = ("case = seeded pattern lists (documented grammar U + undocumented-but-valid grammar A + unique fillers that match "
+RULE = ("case = seeded pattern lists (documented grammar U, including path patterns whose directory components are globs "
+        "such as '*.d/x' + undocumented-but-valid grammar A + unique fillers that match "
         "nothing, live patterns placed at batch borders) x 24-40 file names (60% derived from the patterns); one evaluation = "
         "one (list, name) or (pattern, name) judged; non-trivial = at least one single pattern matches the name "
         "(grouping/precedence/e2e) or the pair is judged by the reference (single); distinct = distinct (patterns, name)")
@@ -36,13 +39,13 @@ MIN_EVALS = {"quick": 20000, "thorough": 2500000}
 FLOORS = {
     # quick floors sit at ~15% of a full run: on a loaded machine the 30 s soft deadline cuts the run short
     "quick": {"grouping_list": 1200, "grouping_multibatch_hit": 120, "grouping_permutation": 1200, "grouping_split": 1200,
-              "ordered_globster": 1200, "single_ref": 30000, "single_ref_match": 2000, "precedence": 2000,
+              "ordered_globster": 1200, "single_ref": 30000, "single_ref_match": 2000, "precedence": 2000, "precedence_ref": 800,
               "precedence_excluded": 500, "precedence_doubleneg": 800, "e2e_is_ignored": 500, "e2e_tree_listing": 15,
               "single_newline_name": 1200, "doc_example": 25},
     # thorough floors sit at ~20% of a full run: a loaded machine that reaches the soft deadline early must not turn "held" into "inconclusive"
     "thorough": {"grouping_list": 90000, "grouping_multibatch_hit": 10000, "grouping_permutation": 90000,
                  "grouping_split": 90000, "ordered_globster": 90000, "single_ref": 2500000, "single_ref_match": 170000,
-                 "precedence": 160000, "precedence_excluded": 40000, "precedence_doubleneg": 60000,
+                 "precedence": 160000, "precedence_ref": 50000, "precedence_excluded": 40000, "precedence_doubleneg": 60000,
                  "e2e_is_ignored": 40000, "e2e_tree_listing": 1300, "single_newline_name": 100000, "doc_example": 25},
 }
 EXHAUSTIVE = {"quick": False, "thorough": False}
@@ -392,10 +395,41 @@ def oracle_precedence(ctx, rng, pats, names):
                  if len(cls) > 1 and rng.random() < 0.02 else None)
 
 
+def oracle_precedence_ref(ctx, rng, upats, names):
+    """Precedence of a list of documented-grammar patterns, judged by the REFERENCE matcher (not by single-pattern
+    answers of the real code): a pattern that silently stops matching also stops excepting / re-ignoring."""
+    from breezy import lazy_regex
+    from breezy.globbing import ExceptionGlobster
+
+    pp = _prefixed(rng, [p for p, _ in upats])
+    if not pp:
+        return
+    lst = [pre + p for pre, p in pp]
+    lid = _lid(lst)
+    try:
+        eg = ExceptionGlobster(lst)
+        for f in names:
+            N = {p.rstrip("/") for pre, p in pp if pre == "" and R.ref_match(p, f)}
+            E = {p.rstrip("/") for pre, p in pp if pre == "!" and R.ref_match(p, f)}
+            D = {p.rstrip("/") for pre, p in pp if pre == "!!" and R.ref_match(p, f)}
+            r = eg.match(f)
+            ctx.count("precedence_ref")
+            cls = ("D" if D else "") + ("E" if E else "") + ("N" if N else "") or "-"
+            ctx.hist("precedence_ref_class:" + cls)
+            d = {"patterns": lst, "name": f, "normal": sorted(N)[:5], "exceptions": sorted(E)[:5], "double": sorted(D)[:5]}
+            judge_exception(ctx, r, N, E, D, "precedence-ref", "ExceptionGlobster on %r (expected from the documentation)" % f, d)
+            ctx.note(("pr", lid, f), nontrivial=bool(N or E or D),
+                     sample={"oracle": "precedence-ref", "patterns": lst, "name": f, "class": cls, "result": r}
+                     if len(cls) > 1 and rng.random() < 0.02 else None)
+    except lazy_regex.InvalidPattern as e:
+        ctx.fail("precedence-ref:valid-pattern-rejected", "documented patterns raise InvalidPattern: %s" % str(e)[:200].replace("\n", " "),
+                 {"patterns": lst})
+
+
 # ------------------------------------------------------------------ end to end
 
 _tree_dir = [None]
-TREE_DIRS = ["d1", "d1/d2", "lib", "lib/Src", "a b"]
+TREE_DIRS = ["d1", "d1/d2", "lib", "lib/Src", "a b", "x.d", "lib/My.app"]
 
 
 def _template_tree():
@@ -535,6 +569,12 @@ DOC_EXAMPLES = [
     (["*", "!./local", "!!*~"], "local~", True), (["*", "!./local", "!!*~"], "x/y~", True),
     (["RE:(?i)foo"], "FOO", True), (["RE:(?i)foo"], "foo", True), (["RE:(?i)foo"], "bar", False),
     (["foo/"], "a/foo", True), (["a/foo/"], "a/foo", True), (["a/foo/"], "b/a/foo", False),
+    # "patterns containing a slash match the whole path from the root", whatever the first component looks like
+    (["*.d/*"], "conf.d/a", True), (["*.d/*"], "conf.d/a/b", False), (["*.d/*"], "etc/conf.d/a", False),
+    (["*.egg-info/PKG-INFO"], "foo.egg-info/PKG-INFO", True), (["*.d/**/x"], "conf.d/p/q/x", True),
+    (["*/*.o"], "lib/a.o", True), (["*/*.o"], "a.o", False), (["?ib/x"], "lib/x", True),
+    (["*.tmp", "!*.keep/*", "!!*.keep/core"], "a.keep/x.tmp", False), (["*.tmp", "!*.keep/*", "!!*.keep/core"], "a.keep/core", True),
+    (["*.tmp", "!*.keep/*", "!!*.keep/core"], "b/x.tmp", True),
     # ordinary regex syntax in an RE: pattern (an escaped parenthesis is not a group)
     (["RE:f\\(1\\)\\.txt"], "f(1).txt", True, "single:re-escaped-paren-becomes-group"),
     (["RE:f\\(1\\)\\.txt"], "f1.txt", False, "single:re-escaped-paren-becomes-group"),
@@ -588,5 +628,7 @@ def case(ctx):
     oracle_precedence(ctx, rng, pats, names)
     small = [p for p in [p for p, _ in upats[:12]] + [R.gen_A(rng, names) for _ in range(2)] if _valid(p)]
     oracle_precedence(ctx, rng, small, snames[:24])
+    # the same kind of list, expected answer from the documentation instead of from single-pattern answers
+    oracle_precedence_ref(ctx, rng, [u for u in upats if u[1].split("+")[0] != "re-escparen"][:14], snames[:24])
     if rng.random() < 0.5:        # (not index % 2: shards take indices modulo the shard count)
         oracle_e2e(ctx, rng, small + [p for p in pats if "zfill" not in p][:30] + [p for p in pats if "zfill" in p][:40], snames[:30])
